@@ -54,6 +54,8 @@ type WS struct {
 	Files   map[string]string `json:"files"` // workspace-relative source files
 	Workers int               `json:"workers"`
 	Algo    string            `json:"algo"`
+	// Previous remembers the content a file had before its last edit (so that a history can revert it)
+	Previous map[string]string `json:"previous,omitempty"`
 }
 
 func Label(pkg, name string) string { return "//" + pkg + ":" + name }
